@@ -14,6 +14,10 @@ Definition src_opt_eqb (a b : option N) : bool :=
   match a, b with Some x, Some y => x =? y | None, None => true | _, _ => false end.
 Record src_aut := { src_St : Type; src_start : src_St; src_is_match : src_St -> bool; src_can_match : src_St -> bool;
                     src_will_always_match : src_St -> bool; src_accept : src_St -> N -> src_St }.
+(* `.iter().min()` on a list of integers; the UTF-8 length of a string given as its scalar values *)
+Definition src_list_min (l : list N) : option N := match l with [] => None | x :: r => Some (fold_left N.min r x) end.
+Definition src_utf8_len1 (c : N) : N := if c <? 128 then 1 else if c <? 2048 then 2 else if c <? 65536 then 3 else 4.
+Definition src_utf8_len (q : list N) : N := fold_left (fun n c => n + src_utf8_len1 c) q 0.
 Definition is_bytes (l : list N) : bool := forallb (fun b => b <? 256) l.
 (* `while x.len() >= K { ...; x = &x[k..] }` (k >= 1): at most `length x` iterations *)
 Fixpoint src_while {S} (fuel : nat) (c : S -> bool) (f : S -> S) (s : S) : S :=
